@@ -137,6 +137,12 @@ func TestC08FailedTx(t *testing.T) {
 						rec.Label(fmt.Sprintf("probe-point:withdraw-policies=%d", min(nh, 3)))
 					}
 					d := g.Gen(t)
+					if ci%4 == 1 && candProfile != "hostile" {
+						if sd := g.GenVaultSubcallGas(t); sd != nil {
+							d = sd
+							rec.Label("candidate:vault-nested-call-gas")
+						}
+					}
 					if d.Mutated == "system-method" {
 						// a user-signed system method can never be part of a block that validators accept (C10 covers it)
 						rec.Discard("system-method-cannot-be-in-an-accepted-block")
